@@ -216,6 +216,9 @@ class C12Static1D(_Base):
             if keep and m != "iadd_missed":
                 continue
             yield f"1d-{d}-{m}-{side}-keep{int(keep)}", dict(deriv=d, mut=m, side=side, keep=keep)
+        # both operands carry identical metadata (name, title, axis name, custom entries), then metadata of one side is edited
+        for d, side in itertools.product(["add", "sub"], ("derived", "source")):
+            yield f"1d-{d}-meta-{side}-samemeta", dict(deriv=d, mut="meta", side=side, same_meta=True)
 
     def declare(self, cx, p):
         x = {"f": declare_cells(cx, "f", [3], "int"), "q": declare_cells(cx, "q", [3], "int"), "e": declare_edges(cx, "e", 3), "u": cx.int("u", 0), "o": cx.int("o", 0),
@@ -234,7 +237,8 @@ class C12Static1D(_Base):
         e = np.asarray(x["e"])
         h = H1(e, np.asarray(x["f"], dtype=int), np.asarray(x["q"], dtype=int), underflow=x["u"], overflow=x["o"], name="src", title="t", axis_name="ax",
                stats=St(sum=1.0, sum2=2.0, min=0.0, max=1.0, weight=3.0), custom="c", keep_missed=p.get("keep", True))
-        g = H1(np.asarray(x["e"]), np.asarray(x["g"], dtype=int), keep_missed=p.get("keep", True))
+        gkw = dict(name="src", title="t", axis_name="ax", custom="c") if p.get("same_meta") else {}
+        g = H1(np.asarray(x["e"]), np.asarray(x["g"], dtype=int), keep_missed=p.get("keep", True), **gkw)
         return h, g
 
 
@@ -279,6 +283,8 @@ class C12Static2D(_Base):
             if keep and m != "iadd_missed":
                 continue
             yield f"2d-{d}-{m}-{side}-keep{int(keep)}", dict(deriv=d, mut=m, side=side, keep=keep)
+        for side in ("derived", "source"):
+            yield f"2d-add-meta-{side}-samemeta", dict(deriv="add", mut="meta", side=side, same_meta=True)
 
     def declare(self, cx, p):
         x = {"f": declare_cells(cx, "f", [2, 2], "int"), "q": declare_cells(cx, "q", [2, 2], "int"), "e": [declare_edges(cx, f"e{k}_", 2) for k in range(2)], "m": cx.int("m", 0),
@@ -292,7 +298,8 @@ class C12Static2D(_Base):
         mk = lambda f, **kw: H2([np.asarray(x["e"][0]), np.asarray(x["e"][1])], np.asarray(nested(f, [2, 2]), dtype=int), **kw)  # noqa: E731
         keep = p.get("keep", True)
         h = mk(x["f"], errors2=np.asarray(nested(x["q"], [2, 2]), dtype=int), missed=x["m"], name="src", title="t", axis_names=["a", "b"], custom="c", keep_missed=keep)
-        return h, mk(x["g"], keep_missed=keep)
+        gkw = dict(name="src", title="t", axis_names=["a", "b"], custom="c") if p.get("same_meta") else {}
+        return h, mk(x["g"], keep_missed=keep, **gkw)
 
 
 @register
